@@ -289,10 +289,10 @@ Dispatch(w, f) ==
             IF ~open THEN Bogus(w)
             ELSE LET slot == w.slots[n]
                      had == Has(slot.cons, f.consumer_tag)
-                     w1 == PushRep([w EXCEPT !.slots[n].cons = IF had THEN Del(@, f.consumer_tag) ELSE @],
-                                   slot.h, OkRep(f))
-                 IN IF had /\ w1.fatal = "" THEN EndCons(w1, slot.cons[f.consumer_tag], [kind |-> "ClientCancelled"])
-                    ELSE w1
+                     \* the consumer is told first, then the caller of cancel() is released
+                     w0 == [w EXCEPT !.slots[n].cons = IF had THEN Del(@, f.consumer_tag) ELSE @]
+                     w1 == IF had THEN EndCons(w0, slot.cons[f.consumer_tag], [kind |-> "ClientCancelled"]) ELSE w0
+                 IN PushRep(w1, slot.h, OkRep(f))
       [] f.type = "method" /\ n # 0 /\ f.m = "basic.deliver" ->
             IF ~open THEN Bogus(w) ELSE CollStart(w, n, "deliver", f)
       [] f.type = "method" /\ n # 0 /\ f.m = "basic.return" ->
